@@ -124,6 +124,7 @@ def policy_peer_audits(ctx):
         def plain(kt, bits):
             if kt.startswith(('ssh-rsa', 'rsa-sha2')): return P.rsa_blob(bits, seed=5)
             if kt == 'ssh-ed25519': return P.ed25519_blob(seed=5)
+            if kt == 'sk-ssh-ed25519@openssh.com': return P.sk_ed25519_blob(seed=5)
             if kt.startswith('ecdsa-sha2-'): return P.ecdsa_blob(kt[11:].encode(), {256: 65, 384: 97, 521: 133}.get(bits, 65))
             return None
         if '-cert-' not in t:
@@ -132,6 +133,7 @@ def policy_peer_audits(ctx):
         if ca is None: return None
         if t.startswith(('ssh-rsa-cert', 'rsa-sha2')): return P.rsa_cert_blob(d['hostkey_size'], ca)   # the key blob of every RSA certificate algorithm is an ssh-rsa-cert-v01 blob
         if t.startswith('ssh-ed25519-cert'): return P.ed25519_cert_blob(ca)
+        if t.startswith('sk-ssh-ed25519-cert'): return P.sk_ed25519_cert_blob(ca)
         return None
 
     def do(z, case):
@@ -168,8 +170,9 @@ def policy_peer_audits(ctx):
             fails = [t for (l, t) in a['notes'] if l == 'fail']
             if fails:
                 ctx.violation('policy-peer-shows-failure/%s/%s' % (a['cat'], a['name']), 'a peer configured exactly per built-in policy %r shows a failure in a standard audit: %s %r: %r' % (name, a['cat'], a['name'], fails), desc)
+        from ssh_audit.hostkeytest import HostKeyTest
         for t in r['served']:
-            if t not in measured:
+            if t in HostKeyTest.HOST_KEY_TYPES and t not in measured:   # a sanity check of the scripted peer: every probed type it serves was obtained
                 ctx.violation('policy-peer/hostkey-not-measured/%s' % t, 'the audit of the peer synthesised from %r did not measure host key %r' % (name, t), desc)
         if r['rc'] == 3:
             ctx.violation('policy-peer-exit-failure', 'standard audit of the peer synthesised from %r exits 3' % name, desc)
